@@ -888,5 +888,7 @@ _cleanup:
     free(fileNamesBuf);
     LZ4IO_freePreferences(prefs);
     free((void*)inFileNames);
-    return operationResult;
+    /* operationResult can be a count of failed files : the exit status only keeps its low 8 bits,
+     * so 256 failures must not read as success */
+    return (operationResult != 0 && (operationResult & 0xFF) == 0) ? 1 : operationResult;
 }
